@@ -316,7 +316,9 @@ TrAckSent ==
 
 TrAckRead ==
   /\ IsEvent("hs.ack_read")
-  /\ conns[Cur.gid].d = N /\ conns[Cur.gid].ackSent /\ ~conns[Cur.gid].ackRead
+  /\ conns[Cur.gid].d = N /\ ~conns[Cur.gid].ackRead
+  /\ IF conns[Cur.gid].l \in DOMAIN phase THEN conns[Cur.gid].ackSent
+     ELSE TRUE                                  \* an adversary listener logs nothing
   /\ conns' = [conns EXCEPT ![Cur.gid].ackRead = TRUE]
   /\ UNCHANGED <<vars, pendEv, tasks, spawnQ, nextTick, phase, subs, subPos, addrNode, lastAdd,
                  replies, closeT, faultT, idle, ka, runStart, lastSend, quietLen, callListed>>
